@@ -14,9 +14,9 @@ LEVEL_NOTE = ("Trusted: virtual clock, probes on _ControlLoopRunner.__init__ and
 DESIGN_REF = "§5 C03"
 RULE = ("case = generated program (fan / wait / outcomes families) + schedule; distinct = tick-order signature hash; non-trivial = the run "
         "published at least one idle announcement or had a queued step state")
-REQUIRED_REACH = ["stall_eval", "queued_state", "idle_publication", "idle_publication_clean", "family_fan", "family_wait", "family_busyretry", "retry_overdue_when_loop_regained_control", "retry_due_while_steps_never_await", "failure_around_the_step_body"]
+REQUIRED_REACH = ["stall_eval", "queued_state", "idle_publication", "idle_publication_clean", "family_fan", "family_wait", "family_busyretry", "retry_overdue_when_loop_regained_control", "retry_due_while_steps_never_await", "failure_around_the_step_body", "family_waitretry"]
 ASSUMPTIONS = ["waiter timeouts are not among the property's idle disqualifiers and are exempt in the black-box cross-check"]
-FAMILIES = [("fan", 3), ("wait", 2), ("outcomes", 1), ("busyretry", 1)]
+FAMILIES = [("fan", 3), ("wait", 2), ("outcomes", 1), ("busyretry", 1), ("waitretry", 1)]
 
 
 def plan(tier, seed):
